@@ -106,7 +106,9 @@ def raised_by_harness(exc):
     """True if the exception was raised by gvmon's own code (a harness error,
     never data for a monitor)"""
     f = innermost_frame_file(exc)
-    return f is not None and boot.in_harness(f)
+    # scripted_rng.py stands in for numpy: what it raises (e.g. choice(0)) is
+    # the library's behaviour as seen by the repository, not a harness error
+    return f is not None and boot.in_harness(f) and not f.endswith('scripted_rng.py')
 
 
 def describe_exc(exc):
